@@ -491,14 +491,27 @@ func init() {
 		in.timeTexts = append(in.timeTexts, &timeEntry{unix: unix, text: bs})
 		return bs
 	}
+	concreteTime := func(in *Interp, caller *frame, t Value) bool {
+		unix := in.callSSA(caller, 0, in.prog.MethodValue(in.prog.MethodSets.MethodSet(in.namedType("time", "Time")).Lookup(nil, "Unix")), []Value{t}, nil).(*Term)
+		return in.simp(unix).IsConst()
+	}
 	I["(time.Time).Format"] = func(in *Interp, caller *frame, fn *ssa.Function, args []Value) Value {
+		if concreteTime(in, caller, args[0]) {
+			return in.callSSABody(caller, fn, args)
+		}
 		return &StrV{b: timeFormat(in, caller, args[0], args[1].(*StrV))}
 	}
 	I["(time.Time).AppendFormat"] = func(in *Interp, caller *frame, fn *ssa.Function, args []Value) Value {
+		if concreteTime(in, caller, args[0]) {
+			return in.callSSABody(caller, fn, args)
+		}
 		return in.appendOp(args[1].(*SliceV), &StrV{b: timeFormat(in, caller, args[0], args[2].(*StrV))}, types.NewSlice(types.Typ[types.Uint8]))
 	}
 	I["time.Parse"] = func(in *Interp, caller *frame, fn *ssa.Function, args []Value) Value {
 		s := args[1].(*StrV)
+		if _, conc := s.concrete(); conc {
+			return in.callSSABody(caller, fn, args)
+		}
 		zero := in.zero(in.namedType("time", "Time"))
 		if s.opaque == "" && in.times != nil {
 			if unix, ok := in.times[bytesKey(s.b)]; ok {
@@ -611,7 +624,19 @@ func init() {
 	ioEOF := func(in *Interp) Value {
 		return in.loadThrough(in.global(in.prog.ImportedPackage("io").Var("EOF")))
 	}
+	// a Decoder made by xml.NewDecoder (reader set) runs its real code
+	xmlReal := func(in *Interp, d Value) bool {
+		c, _ := d.(*Cell)
+		if c == nil {
+			return false
+		}
+		r, _ := fieldCell(c, "r").v.(*IfaceV)
+		return r != nil
+	}
 	I["(*encoding/xml.Decoder).Skip"] = func(in *Interp, caller *frame, fn *ssa.Function, args []Value) Value {
+		if xmlReal(in, args[0]) {
+			return in.callSSABody(caller, fn, args)
+		}
 		h, ended := xmlEnded(in, args[0])
 		if ended {
 			return ioEOF(in)
@@ -620,6 +645,9 @@ func init() {
 		return (*IfaceV)(nil)
 	}
 	I["(*encoding/xml.Decoder).Token"] = func(in *Interp, caller *frame, fn *ssa.Function, args []Value) Value {
+		if xmlReal(in, args[0]) {
+			return in.callSSABody(caller, fn, args)
+		}
 		h, ended := xmlEnded(in, args[0])
 		if ended {
 			return []Value{(*IfaceV)(nil), ioEOF(in)}
